@@ -8,6 +8,7 @@
 import Gts.Bridge.OriginValidate
 import Gts.Bridge.OriginBuf
 import Gts.Bridge.OriginSlow
+import Gts.Bridge.OriginReader
 import Gts.Lemmas.Origin
 namespace Gts.Bridge
 open Gts Gts.Origin
@@ -63,6 +64,63 @@ theorem gen_slow_never_panics (fuel : Nat) (st tok : Bytes) (L : Nat) (hL : L < 
     Gen.slowGenBankOriginParser fuel fmt9 splitLine (L : Int) st tok ≠ .error .panic := by
   rw [slowGenBankOriginParser_eq fuel st tok _ h10 (by omega)]
   exact slowOrigin_ne_panic st L hL
+
+/-! ### the same statements up to the exact bound `1000000020` (= `Gen.maxOriginResidues`) -/
+
+/-- `gen_block_roundtrip` up to the exact bound of the reader's length guard -/
+theorem gen_block_roundtrip_exact (fuel : Nat) (p : Bytes) (h : p.length ≤ 1000000020) (h6 : 6 ≤ fuel)
+    (hl : p.length ≤ 60 * fuel) :
+    ∃ b, Gen.newOrigin fuel fmt9 p = .ok (b, false)
+      ∧ (b.length : Int) = Gen.toOriginLength (p.length : Int)
+      ∧ Gen.originLen b false = .ok (p.length : Int)
+      ∧ ∃ o, Gen.originBytes fuel b false = .ok (p, o) := by
+  refine ⟨originStream p, ?_, ?_, ?_, ?_⟩
+  · rw [newOrigin_eq fuel p h6 hl, newOrigin_ok_le p h]
+  · rw [toOriginLength_eq, originStream_length_le p h, toOriginLength_nat]
+  · rw [originLen_eq]
+    congr 1
+    unfold originLen
+    rw [originStream_length_le p h]
+    split
+    · rename_i h0
+      have : p.length = 0 := (tl_zero_iff p.length).mp (by omega)
+      omega
+    · exact fromOriginLength_tl _
+  · have hb : Origin.fromOriginLength ((originStream p).length : Int) ≤ 60 * (fuel : Int) := by
+      rw [originStream_length_le p h, fromOriginLength_tl]; omega
+    rw [originBytes_eq fuel _ h6 hb, originBytes_originStream_le p h]
+    exact ⟨_, rfl⟩
+
+/-- `gen_fast_imp_slow` for every declared length that passes the guard `length > maxOriginResidues` -/
+theorem gen_fast_imp_slow_exact (fuel : Nat) (b tok : Bytes) (L : Nat) (hL : ¬ ((L : Int) > Gen.maxOriginResidues))
+    (h10 : 10 ≤ fuel) (hl : L ≤ 60 * fuel)
+    (h : Gen.validateOrigin fuel fmt9 b (L : Int) = .ok ()) :
+    Gen.slowGenBankOriginParser fuel fmt9 splitLine (L : Int) b tok =
+      .ok (b.take (Gen.toOriginLength (L : Int)).toNat, b.drop (Gen.toOriginLength (L : Int)).toNat) := by
+  have hL' : L ≤ 1000000020 := by simp only [Gen.maxOriginResidues] at hL; omega
+  rw [validateOrigin_eq fuel _ _ h10 (by omega)] at h
+  rw [slowGenBankOriginParser_eq fuel b tok _ h10 (by omega), toOriginLength_eq, toNat_tl]
+  exact Gts.Origin.fast_imp_slow_le b L hL' h
+
+/-- `gen_slow_never_panics` for every declared length that passes the guard -/
+theorem gen_slow_never_panics_exact (fuel : Nat) (st tok : Bytes) (L : Nat) (hL : ¬ ((L : Int) > Gen.maxOriginResidues))
+    (h10 : 10 ≤ fuel) (hl : L ≤ 60 * fuel) :
+    Gen.slowGenBankOriginParser fuel fmt9 splitLine (L : Int) st tok ≠ .error .panic := by
+  have hL' : L ≤ 1000000020 := by simp only [Gen.maxOriginResidues] at hL; omega
+  rw [slowGenBankOriginParser_eq fuel st tok _ h10 (by omega)]
+  exact slowOrigin_ne_panic_le st L hL'
+
+/-- the reader behind `Clear`, as written, never panics on a slow-path store or a wide index: for
+NO declared length `L ≥ 0` and no input does the regenerated tail run the slow path into a panic —
+beyond the guard it returns the error first -/
+theorem gen_reader_slow_guarded (fuel : Nat) (st tok gb0 : Bytes) (gb1 : Bool) (L : Nat)
+    (hL : (L : Int) > Gen.maxOriginResidues) :
+    Gen.originReaderTail fuel fmt9 splitLine (L : Int) st tok gb0 gb1 = .error .fail := by
+  simp only [Gen.originReaderTail]
+  rw [if_pos hL]
+
+example : ¬ (((10 ^ 9 : Nat) : Int) > Gen.maxOriginResidues) ∧ (((1000000021 : Nat) : Int) > Gen.maxOriginResidues) := by
+  decide
 
 /-- non-vacuity: a 13-residue sequence meets the hypotheses with fuel 10 -/
 example : ([97,99,103,116,97,99,103,116,97,99,103,116,110] : Bytes).length < 10 ^ 9
